@@ -15,6 +15,7 @@ DEST = os.path.join(ROOT, 'seeded')
 def main():
     rows = []
     for src in sys.argv[1:]:
+        src, _, prefix = src.partition(':')
         for ev in sorted(glob.glob(os.path.join(src, '*', 'eval.json')) + glob.glob(os.path.join(src, '*', '*', 'eval.json'))):
             d = os.path.dirname(ev)
             e = json.load(open(ev))
@@ -25,7 +26,7 @@ def main():
                 except Exception:  # noqa
                     meta = {}
             rel = os.path.relpath(d, src).replace(os.sep, '-')
-            name = rel
+            name = prefix + rel
             checks = e.get('checks', {})
             if len(checks) < 20:
                 continue
